@@ -34,6 +34,7 @@ type Config struct {
 	AccountID    string
 	AwsKey, AwsSecret, AwsSession string
 	CredsExpiry  time.Time // expiry of the credentials handed over at init
+	SlowEventsMs map[string]int // slow telemetry sink: per lifecycle event (InvokeStart, InitStart) the time the Send call takes
 	BootstrapCmd []string
 	BootstrapErr error // Cmd() fails with this
 	Port         int   // 0 = pick from the allocator
@@ -189,7 +190,7 @@ func NewEmu(cfg Config) (*Emu, error) {
 	}
 	e := &Emu{Cfg: cfg, Log: l, Root: root, Addr: fmt.Sprintf("127.0.0.1:%d", port)}
 	e.Sup = NewFakeSup(l)
-	e.Ev = &RecEvents{log: l}
+	e.Ev = &RecEvents{log: l, SlowMs: cfg.SlowEventsMs}
 	e.Tr = newRecTracer(l)
 	sb := rapidcore.NewSandboxBuilder().
 		SetSupervisor(e.Sup).
